@@ -74,9 +74,29 @@ def _local_copies(f: Func, seeds: Set[str]) -> Set[str]:
             srcs: List[ast.expr] = [val]
             if isinstance(val, ast.IfExp):
                 srcs = [val.body, val.orelse]
+            # containers of callables: (a, b), [a], tuple(t), list(t), t + (a,)
+            more: List[ast.expr] = []
+            for s in srcs:
+                if isinstance(s, (ast.Tuple, ast.List, ast.Set)):
+                    more += list(s.elts)
+                elif isinstance(s, ast.Call) and isinstance(s.func, ast.Name) and s.func.id in ("tuple", "list", "iter", "reversed", "sorted", "deque") and s.args:
+                    more.append(s.args[0])
+                elif isinstance(s, ast.BinOp) and isinstance(s.op, ast.Add):
+                    more += [s.left, s.right]
+            srcs = srcs + more
             if any(isinstance(s, ast.Name) and s.id in out for s in srcs):
                 out.add(tgt)
                 changed = True
+        # items of a container of callables
+        for n in walk_no_nested(f.node):
+            gens = [(n.target, n.iter)] if isinstance(n, ast.For) else \
+                [(g.target, g.iter) for g in n.generators] if isinstance(n, (ast.ListComp, ast.SetComp, ast.GeneratorExp, ast.DictComp)) else []
+            for tg, it in gens:
+                if any(isinstance(x, ast.Name) and x.id in out for x in ast.walk(it)):
+                    for t in ast.walk(tg):
+                        if isinstance(t, ast.Name) and t.id not in out:
+                            out.add(t.id)
+                            changed = True
     return out
 
 
@@ -93,6 +113,7 @@ class UserTaint:
         if missing:
             raise AnalysisError(f"user-callable parameters {missing} vanished from {ENTRY}")
         self.names: Dict[str, Set[str]] = {ENTRY: set(USER_PARAMS)}
+        self.ret_taint: Set[str] = set()
         changed = True
         while changed:
             changed = False
@@ -121,6 +142,20 @@ class UserTaint:
                                 if p not in self.names.get(tq, set()):
                                     self.names.setdefault(tq, set()).add(p)
                                     changed = True
+                # a helper that hands a user callable (or a container of them) back: its result is one
+                if any(isinstance(r, ast.Return) and r.value is not None and any(isinstance(x, ast.Name) and x.id in T for x in ast.walk(r.value))
+                       for r in walk_no_nested(f.node)):
+                    if q not in self.ret_taint:
+                        self.ret_taint.add(q)
+                        changed = True
+            for q2, f2 in repo.funcs.items():
+                for st in walk_no_nested(f2.node):
+                    if isinstance(st, (ast.Assign, ast.AnnAssign)) and isinstance(getattr(st, "value", None), ast.Call):
+                        tg_ = st.targets[0] if isinstance(st, ast.Assign) and len(st.targets) == 1 else getattr(st, "target", None)
+                        if isinstance(tg_, ast.Name) and any(t in self.ret_taint for c2, ts in cg.calls[q2] if c2 is st.value for t in ts):
+                            if tg_.id not in self.names.get(q2, set()):
+                                self.names.setdefault(q2, set()).add(tg_.id)
+                                changed = True
         # direct user call sites
         self.direct: Dict[str, List[ast.Call]] = {}
         for q, T in self.names.items():
